@@ -28,7 +28,8 @@ DEFAULT_FEATS = {
     'joins': True, 'partial_joins': True, 'error_routes': True,
     'complete_routes': True, 'guards': True, 'commands': True,
     'defaults': True, 'publish': True, 'multi_start': True,
-    'jinja': True, 'pause_cmd': False, 'cycles': False,
+    'jinja': True, 'pause_cmd': False, 'cycles': True,
+    'expr_failures': True,
 }
 
 
@@ -189,6 +190,55 @@ def gen_direct(D, F=None, max_tasks=8):
         if pubs and D.bool(0.7):
             prog['output'] = {'o_%s' % v: v for v in pubs}
 
+    # bounded cycle: P -> l0 -> [l1] -> (l0 while c < K | lx when c >= K)
+    if F.get('cycles') and D.bool(0.25):
+        prog['lang'] = 'yaql'
+        K = D.int(1, 3)
+        pi = D.int(0, n - 1)
+        P = names[pi]
+        body = ['l0'] + (['l1'] if D.bool(0.5) else [])
+        for nm in body + ['lx']:
+            prog['tasks'][nm] = new_task()
+            outcomes[nm] = [['ok', 'a']]
+        if D.bool(0.15):
+            outcomes[body[-1]] = [['err', 'boom-loop']]
+        prog['order'] = prog['order'] + body + ['lx']
+        add_edge(P, 'l0')
+        prog['tasks']['l0']['publish']['c'] = ['inc', 'c']
+        if len(body) == 2:
+            prog['tasks']['l0']['on-success'].append(
+                {'to': 'l1', 'guard': None})
+        last = prog['tasks'][body[-1]]
+        last['on-success'].append({'to': 'l0', 'guard': ['lt', 'c', K]})
+        last['on-success'].append({'to': 'lx', 'guard': ['ge', 'c', K]})
+        later_joins = [names[j] for j in range(pi + 1, n)
+                       if prog['tasks'][names[j]]['join'] is not None]
+        if later_joins and D.bool(0.6):
+            J = D.choice(later_joins)
+            prog['tasks']['lx']['on-success'].append(
+                {'to': J, 'guard': None})
+            jt = prog['tasks'][J]['join']
+            if isinstance(jt, int):
+                pass
+        prog['has_cycle'] = True
+
+    # failing expressions (syntactically valid, fail when evaluated)
+    if F.get('expr_failures') and D.bool(0.2):
+        kind = D.choice(['publish', 'guard', 'input', 'output',
+                         'publish-on-error'])
+        nm = D.choice(prog['order'])
+        if kind == 'output':
+            prog['bad_output'] = True
+            if not prog.get('output'):
+                prog['output'] = {}
+        elif kind == 'guard':
+            cl = draw_clause()
+            prog['tasks'][nm][cl].insert(
+                D.int(0, len(prog['tasks'][nm][cl])),
+                {'to': 'noop', 'guard': ['bad']})
+        else:
+            prog['tasks'][nm]['bad'] = kind
+
     # rendering forms
     for nm in prog['order']:
         prog['tasks'][nm]['form'] = {
@@ -230,6 +280,10 @@ def gen_reverse(D, F=None, max_tasks=8):
 # --------------------------------------------------------------------------
 # guards
 
+class ExprFailure(Exception):
+    """A generated expression that fails when evaluated."""
+
+
 def eval_guard(g, data, result):
     """Reference evaluation of the generated guard forms (never YAQL)."""
     if g is None:
@@ -245,6 +299,10 @@ def eval_guard(g, data, result):
         return result != g[1]
     if op == 'lt':
         return (data.get(g[1]) or 0) < g[2]
+    if op == 'ge':
+        return (data.get(g[1]) or 0) >= g[2]
+    if op == 'bad':
+        raise ExprFailure()
     raise ValueError(g)
 
 
@@ -260,7 +318,11 @@ def render_guard(g, lang):
         if op == 'nres':
             return "<%% task().result != '%s' %%>" % g[1]
         if op == 'lt':
-            return '<%% $.%s < %d %%>' % (g[1], g[2])
+            return '<%% $.get(%s, 0) < %d %%>' % (g[1], g[2])
+        if op == 'ge':
+            return '<%% $.get(%s, 0) >= %d %%>' % (g[1], g[2])
+        if op == 'bad':
+            return '<% 1 / 0 > 0 %>'
     else:
         if op == 'flag':
             return '{{ _.%s }}' % g[1]
@@ -272,6 +334,8 @@ def render_guard(g, lang):
             return "{{ task().result != '%s' }}" % g[1]
         if op == 'lt':
             return '{{ _.%s < %d }}' % (g[1], g[2])
+        if op == 'bad':
+            return '{{ 1 / 0 > 0 }}'
     raise ValueError(g)
 
 
@@ -301,6 +365,14 @@ def _render_clause(edges, form, lang, tpub=None):
             d['publish'] = tpub
         return d
     return nxt
+
+
+def _render_value(v, lang):
+    if isinstance(v, list) and v and v[0] == 'inc':
+        if lang == 'yaql':
+            return '<%% $.get(%s, 0) + 1 %%>' % v[1]
+        return "{{ _.get('%s', 0) + 1 }}" % v[1]
+    return v
 
 
 def render_task(prog, nm):
@@ -335,10 +407,20 @@ def render_task(prog, nm):
         r = t['requires']
         d['requires'] = r[0] if (len(r) == 1 and form.get('req_as_string')) \
             else list(r)
-    if t.get('publish'):
-        d['publish'] = dict(t['publish'])
-    if t.get('publish-on-error'):
-        d['publish-on-error'] = dict(t['publish-on-error'])
+    bad_expr = '<% 1 / 0 %>' if lang == 'yaql' else '{{ 1 / 0 }}'
+    if t.get('publish') or t.get('bad') == 'publish':
+        d['publish'] = {k: _render_value(v, lang)
+                        for k, v in t['publish'].items()}
+        if t.get('bad') == 'publish':
+            d['publish']['zz_bad'] = bad_expr
+    if t.get('publish-on-error') or t.get('bad') == 'publish-on-error':
+        d['publish-on-error'] = {k: _render_value(v, lang) for k, v in
+                                 t['publish-on-error'].items()}
+        if t.get('bad') == 'publish-on-error':
+            d['publish-on-error']['zz_bad'] = bad_expr
+    if t.get('bad') == 'input' and not t.get('workflow'):
+        d['action'] = 'std.echo'
+        d['input'] = {'output': bad_expr}
     for c in ('on-success', 'on-error', 'on-complete'):
         if t.get(c):
             d[c] = _render_clause(t[c], form, lang,
@@ -367,6 +449,9 @@ def render(prog, wrap=True):
         else:
             wf['output'] = {k: "<%% $.get(%s, none) %%>" % v
                             for k, v in prog['output'].items()}
+    if prog.get('bad_output'):
+        wf.setdefault('output', {})['zz_bad'] = \
+            '<% 1 / 0 %>' if prog['lang'] == 'yaql' else '{{ 1 / 0 }}'
     if prog.get('output_raw'):
         wf['output'] = prog['output_raw']
     d = prog.get('defaults')
@@ -427,6 +512,15 @@ def tags(prog, outcomes=None):
             tg.add('has_requires')
     if prog.get('defaults'):
         tg.add('has_defaults')
+    if prog.get('has_cycle'):
+        tg.add('has_cycle')
+    if prog.get('bad_output') or any(
+            t.get('bad') for t in prog['tasks'].values()) or any(
+            (e.get('guard') or [None])[0] == 'bad'
+            for t in prog['tasks'].values()
+            for c in ('on-success', 'on-error', 'on-complete')
+            for e in t.get(c, [])):
+        tg.add('has_expr_failure')
     if prog['type'] == 'direct':
         starts = [nm for nm in prog['order'] if not inbound(prog, nm)]
         if len(starts) >= 2:
